@@ -56,6 +56,11 @@ func HasBody(r *http.Request) bool {
 		return false
 	}
 
+	if r.Body == nil {
+		// no body at all: leave the request untouched rather than installing a typed-nil reader
+		return false
+	}
+
 	rdr := newPeekingReader(r.Body)
 	r.Body = rdr
 	return rdr.HasContent()
@@ -105,6 +110,9 @@ func (p *peekingReader) Read(d []byte) (int, error) {
 }
 
 func (p *peekingReader) Close() error {
+	if p == nil {
+		return nil
+	}
 	if p.underlying == nil {
 		return errors.New("reader already closed")
 	}
